@@ -306,7 +306,16 @@ func ruleWebVTTSettings(p *Prog, l *Ledger, tier string) {
 	reader := map[string]map[string]string{":": {}, "=": {}}
 	for sep := range reader {
 		sp := sep
-		for c, targets := range constArms(rd, func(v ssa.Value) bool { return sepOf(v) == sp }) {
+		arms := map[string][]*ssa.BasicBlock{}
+		for _, h := range p.Helpers(rd) {
+			if fnPkg(h) != p.LibSSA {
+				continue
+			}
+			for c, targets := range constArms(h, func(v ssa.Value) bool { return sepOf(v) == sp }) {
+				arms[c] = append(arms[c], targets...)
+			}
+		}
+		for c, targets := range arms {
 			for _, t := range targets {
 				var fields []string
 				for f := range fieldStores(regionBlocks(t, nil), "") {
@@ -321,7 +330,7 @@ func ruleWebVTTSettings(p *Prog, l *Ledger, tier string) {
 		}
 	}
 	// reader, table form: settings[split[0]] on a map literal whose values are the addresses of the fields
-	for _, b := range rd.Blocks {
+	for _, b := range p.helperBlocks(rd) {
 		for _, ins := range b.Instrs {
 			lk, ok := ins.(*ssa.Lookup)
 			if !ok {
